@@ -394,48 +394,59 @@ func c09Resolver(c *Ctx) {
 		{mode: "soap-fault", body: `<soap:Envelope xmlns:soap="` + nsSOAP + `"><soap:Body><soap:Fault><faultcode>x</faultcode></soap:Fault></soap:Body></soap:Envelope>`},
 		{mode: "wrong-envelope", body: `<Envelope><Body/></Envelope>`}, {mode: "html", body: "<html><body>login</body></html>"},
 		{mode: "unsolicited", body: good}, {mode: "comment-only", body: "<!-- -->"}}
-	for _, m := range modes {
-		m := m
-		var a *saml.Assertion
-		var err error
-		panicked := ""
-		withGlobals(cfg, now, func() {
-			defer func() {
-				if p := recover(); p != nil {
-					panicked = fmt.Sprint(p)
-				}
-			}()
-			spv := cfg.SP()
-			spv.HTTPClient = &http.Client{Transport: &m}
-			spv.IDPMetadata.IDPSSODescriptors[0].ArtifactResolutionServices = []saml.Endpoint{{Binding: saml.SOAPBinding, Location: "https://idp.example.com/resolve"}}
-			req, _ := http.NewRequest("POST", cfg.AcsURL, nil)
-			req.Form = url.Values{"SAMLart": {"AAQAAMh48/1oXIM+sDo7Dh2qMp1HM4IF5DaRNmDj6RdUmllwn9jJHyEgIi8="}}
-			req.PostForm = req.Form
-			// the inbound request is abandoned after 300 ms (client gone / server deadline)
-			ctx, cancel := context.WithTimeout(context.Background(), 300*time.Millisecond)
-			defer cancel()
-			req = req.WithContext(ctx)
-			done := make(chan struct{})
-			go func() {
-				defer close(done)
+	for _, m0 := range modes {
+		for _, client := range []string{"explicit", "unset-default-client"} {
+			m := m0
+			client := client
+			var a *saml.Assertion
+			var err error
+			panicked := ""
+			withGlobals(cfg, now, func() {
 				defer func() {
 					if p := recover(); p != nil {
 						panicked = fmt.Sprint(p)
 					}
 				}()
-				a, err = spv.ParseResponse(req, []string{"req-1"})
-			}()
-			select {
-			case <-done:
-			case <-time.After(5 * time.Second):
-				panicked = "hang: ParseResponse did not return within 5 s of the inbound request's context ending"
-			}
-		})
-		var ire *saml.InvalidResponseError
-		ok := panicked == "" && a == nil && err != nil && errors.As(err, &ire) && err.Error() == "Authentication failed"
-		c.Count("class/resolver-fault")
-		c.Add(g, &Case{Key: map[string]string{"class": "resolver-fault", "mode": m.mode}, Input: map[string]any{"resolver": m.mode},
-			Obs: map[string]any{"panic": panicked, "err": fmt.Sprint(err), "assertion_nil": a == nil}, Term: fmt.Sprint(ok), ImplSpecOK: Bptr(ok), Dedup: m.mode})
+				spv := cfg.SP()
+				if client == "explicit" {
+					spv.HTTPClient = &http.Client{Transport: &m}
+				} else {
+					// HTTPClient left unset (documented: http.DefaultClient is used); no network: the default
+					// transport is the faulty resolver for the duration of the call
+					oldT := http.DefaultTransport
+					http.DefaultTransport = &m
+					defer func() { http.DefaultTransport = oldT }()
+				}
+				spv.IDPMetadata.IDPSSODescriptors[0].ArtifactResolutionServices = []saml.Endpoint{{Binding: saml.SOAPBinding, Location: "https://idp.example.com/resolve"}}
+				req, _ := http.NewRequest("POST", cfg.AcsURL, nil)
+				req.Form = url.Values{"SAMLart": {"AAQAAMh48/1oXIM+sDo7Dh2qMp1HM4IF5DaRNmDj6RdUmllwn9jJHyEgIi8="}}
+				req.PostForm = req.Form
+				// the inbound request is abandoned after 300 ms (client gone / server deadline)
+				ctx, cancel := context.WithTimeout(context.Background(), 300*time.Millisecond)
+				defer cancel()
+				req = req.WithContext(ctx)
+				done := make(chan struct{})
+				go func() {
+					defer close(done)
+					defer func() {
+						if p := recover(); p != nil {
+							panicked = fmt.Sprint(p)
+						}
+					}()
+					a, err = spv.ParseResponse(req, []string{"req-1"})
+				}()
+				select {
+				case <-done:
+				case <-time.After(5 * time.Second):
+					panicked = "hang: ParseResponse did not return within 5 s of the inbound request's context ending"
+				}
+			})
+			var ire *saml.InvalidResponseError
+			ok := panicked == "" && a == nil && err != nil && errors.As(err, &ire) && err.Error() == "Authentication failed"
+			c.Count("class/resolver-fault")
+			c.Add(g, &Case{Key: map[string]string{"class": "resolver-fault", "mode": m.mode, "http_client": client}, Input: map[string]any{"resolver": m.mode, "http_client": client},
+				Obs: map[string]any{"panic": panicked, "err": fmt.Sprint(err), "assertion_nil": a == nil}, Term: fmt.Sprint(ok), ImplSpecOK: Bptr(ok), Dedup: m.mode + "/" + client})
+		}
 	}
 }
 
